@@ -25,8 +25,8 @@ COMPONENTS = {"real": ["memento_run_batch context inheritance, RecursiveContext,
 REACH = ["nonmemoized_outcomes", "inner_prevent_edges", "runs", "runs_reexecuting_nothing", "runs_reexecuting_subset", "ctx_edges", "empty_ctx_edges", "prevent_runs",
          "prevent_nested_calls_refused", "absent_context_probes", "restarts"]
 
-ROOT_CTXS = [None, {"k": 1}, {"k": 2}, {"r": "A"}, {"r": "B", "k": 1}, {}]
-UNIVERSE = [None, {"k": 1}, {"k": 2}, {"k": 1, "j": "a"}, {"r": "A"}, {"r": "B", "k": 1}]
+ROOT_CTXS = [None, {"k": 1}, {"k": 2}, {"r": "A"}, {"r": "B", "k": 1}, {}, {"k": True}, {"k": 1.0}, {"k": "1"}]   # 1, True, 1.0, "1": equal or alike, four identities
+UNIVERSE = [None, {"k": 1}, {"k": 2}, {"k": 1, "j": "a"}, {"r": "A"}, {"r": "B", "k": 1}, {"k": True}, {"k": 1.0}, {"k": "1"}]
 
 
 def gen_case(seed):
